@@ -28,7 +28,9 @@ Inductive item :=
 | IPlain (st : node)
 | IIf (p : Z) (cond : node) (addr : Z) (body : list item)
 | IIfE (p : Z) (cond : node) (eb : Z) (body : list item) (jp je : Z) (ebody : list item)
-| IWhile (done : bool) (ps pj : Z) (cond : node) (pe : Z) (body : list item).
+| IWhile (done : bool) (ps pj : Z) (cond : node) (pe : Z) (body : list item)
+(* exit repeat: a forward jump past the end of the loop; [conv] = already converted by condition_detect *)
+| IExit (conv : bool) (p t : Z).
 
 Definition true_at (ps : Z) : node := Leaf KConst "TRUE" ps true.
 Definition exit_if (pj : Z) (c : node) : node := Stmt pj (IfThen pj (Unary "not" pj c) [Stmt pj (ExitRepeat pj)] []).
@@ -43,6 +45,7 @@ Fixpoint tree_i (i : item) : node :=
   | IIf p c a body => Stmt p (IfThen p c (tr body) [])
   | IIfE p c eb body jp je ebody => Stmt p (IfThen p c (tr body) (tr ebody))
   | IWhile _ ps pj c pe body => loop_stmt ps pe (true_at ps) (exit_if pj c :: tr body)
+  | IExit _ p _ => Stmt p (ExitRepeat p)
   end.
 Fixpoint trees (l : list item) : list node := match l with [] => [] | x :: r => tree_i x :: trees r end.
 
@@ -54,6 +57,7 @@ Fixpoint flat_i (i : item) : list node :=
   | IIfE p c eb body jp je ebody => Stmt p (Jz p c eb) :: fl body ++ Stmt jp (Jump jp je) :: fl ebody
   | IWhile done ps pj c pe body =>
     [loop_stmt ps pe (true_at ps) (if done then exit_if pj c :: trees body else Stmt pj (Jz pj c (pe + 2)) :: fl body)]
+  | IExit conv p t => [if conv then Stmt p (ExitRepeat p) else Stmt p (Jump p t)]
   end.
 Fixpoint flats (l : list item) : list node := match l with [] => [] | x :: r => flat_i x ++ flats r end.
 
@@ -65,6 +69,7 @@ Fixpoint fin_i (i : item) : node :=
   | IIf p c a body => Stmt p (IfThen p c (fn body) [])
   | IIfE p c eb body jp je ebody => Stmt p (IfThen p c (fn body) (fn ebody))
   | IWhile _ ps pj c pe body => loop_stmt ps pe c (fn body)
+  | IExit _ p _ => Stmt p (ExitRepeat p)
   end.
 Fixpoint fins (l : list item) : list node := match l with [] => [] | x :: r => fin_i x :: fins r end.
 
@@ -75,6 +80,7 @@ Fixpoint depth_i (i : item) : nat :=
   | IIf _ _ _ body => S (d body)
   | IIfE _ _ _ body _ _ ebody => S (Nat.max (d body) (d ebody))
   | IWhile _ _ _ _ _ body => S (d body)
+  | IExit _ _ _ => O
   end.
 Fixpoint depths (l : list item) : nat := match l with [] => O | x :: r => Nat.max (depth_i x) (depths r) end.
 
@@ -113,6 +119,41 @@ Proof. induction l1 as [|x r IH]; [reflexivity|]. cbn [app trees]. rewrite IH. r
 Lemma fins_app l1 l2 : fins (l1 ++ l2) = fins l1 ++ fins l2.
 Proof. induction l1 as [|x r IH]; [reflexivity|]. cbn [app fins]. rewrite IH. reflexivity. Qed.
 
+(* the exits of a list level (through ifs, not into inner loops): [exits_gt pe] - every exit that is still a jump leaves
+   the loop ending at pe; [exits_done] - all are converted *)
+Fixpoint exits_gt_i (pe : Z) (i : item) : bool :=
+  let al := fix al (l : list item) : bool := match l with [] => true | x :: r => exits_gt_i pe x && al r end in
+  match i with
+  | IPlain _ | IWhile _ _ _ _ _ _ => true
+  | IIf _ _ _ body => al body
+  | IIfE _ _ _ body _ _ ebody => al body && al ebody
+  | IExit conv _ t => conv || (pe <? t)
+  end.
+Fixpoint exits_gt (pe : Z) (l : list item) : bool := match l with [] => true | x :: r => exits_gt_i pe x && exits_gt pe r end.
+Fixpoint exits_done_i (i : item) : bool :=
+  let al := fix al (l : list item) : bool := match l with [] => true | x :: r => exits_done_i x && al r end in
+  match i with
+  | IPlain _ | IWhile _ _ _ _ _ _ => true
+  | IIf _ _ _ body => al body
+  | IIfE _ _ _ body _ _ ebody => al body && al ebody
+  | IExit conv _ _ => conv
+  end.
+Fixpoint exits_done (l : list item) : bool := match l with [] => true | x :: r => exits_done_i x && exits_done r end.
+Lemma exits_gt_al pe l : (fix al (l : list item) : bool := match l with [] => true | x :: r => exits_gt_i pe x && al r end) l = exits_gt pe l.
+Proof. induction l as [|x r IH]; [reflexivity|]. cbn [exits_gt]. rewrite <- IH. reflexivity. Qed.
+Lemma exits_done_al l : (fix al (l : list item) : bool := match l with [] => true | x :: r => exits_done_i x && al r end) l = exits_done l.
+Proof. induction l as [|x r IH]; [reflexivity|]. cbn [exits_done]. rewrite <- IH. reflexivity. Qed.
+Lemma exits_done_app l1 l2 : exits_done (l1 ++ l2) = exits_done l1 && exits_done l2.
+Proof. induction l1 as [|x l1 IH]; [reflexivity|]. cbn [app exits_done]. rewrite IH, andb_assoc. reflexivity. Qed.
+Lemma exits_gt_app pe l1 l2 : exits_gt pe (l1 ++ l2) = exits_gt pe l1 && exits_gt pe l2.
+Proof. induction l1 as [|x l1 IH]; [reflexivity|]. cbn [app exits_gt]. rewrite IH, andb_assoc. reflexivity. Qed.
+Lemma exits_gt_if pe p c a body : exits_gt_i pe (IIf p c a body) = exits_gt pe body. Proof. apply exits_gt_al. Qed.
+Lemma exits_gt_ife pe p c eb body jp je ebody : exits_gt_i pe (IIfE p c eb body jp je ebody) = exits_gt pe body && exits_gt pe ebody.
+Proof. cbn [exits_gt_i]. rewrite !exits_gt_al. reflexivity. Qed.
+Lemma exits_done_if p c a body : exits_done_i (IIf p c a body) = exits_done body. Proof. apply exits_done_al. Qed.
+Lemma exits_done_ife p c eb body jp je ebody : exits_done_i (IIfE p c eb body jp je ebody) = exits_done body && exits_done ebody.
+Proof. cbn [exits_done_i]. rewrite !exits_done_al. reflexivity. Qed.
+
 (* a loop condition that loop_detect cannot take for a counting loop or a list loop *)
 Definition wcond_ok (c : node) : bool :=
   match c with
@@ -135,8 +176,9 @@ Inductive wp : Z -> Z -> list item -> Prop :=
     lo <= p -> body <> [] -> ebody <> [] -> wp (p + 1) jp body -> jp < eb -> wp eb je ebody -> wp je hi r ->
     wp lo hi (IIfE p c eb body jp je ebody :: r)
 | wp_while lo hi done ps pj c pe body r :
-    lo <= ps -> ps <= pj -> wc c = true -> wp (pj + 1) pe body -> wp (pe + 1) hi r ->
-    wp lo hi (IWhile done ps pj c pe body :: r).
+    lo <= ps -> ps <= pj -> wc c = true -> wp (pj + 1) pe body -> exits_gt pe body = true -> wp (pe + 1) hi r ->
+    wp lo hi (IWhile done ps pj c pe body :: r)
+| wp_exit lo hi conv p t r : lo <= p -> wp (p + 1) hi r -> wp lo hi (IExit conv p t :: r).
 
 Lemma wp_le lo hi l : wp lo hi l -> lo <= hi.
 Proof. induction 1; lia. Qed.
@@ -149,24 +191,27 @@ Proof.
   - apply wp_if; [lia | assumption | assumption | assumption].
   - apply wp_ife; try assumption. lia.
   - apply wp_while; try assumption. lia.
+  - apply wp_exit; [lia | assumption].
 Qed.
 Lemma wp_app lo mid hi l1 l2 : wp lo mid l1 -> wp mid hi l2 -> wp lo hi (l1 ++ l2).
 Proof.
   induction 1 as [lo mid H | lo mid st r Hp Hlo Hr IH | lo mid p c a body r Hlo Hne Hb _ Hr IHr
                  | lo mid p c eb body jp je ebody r Hlo Hne Hne' Hb _ Hj He _ Hr IHr
-                 | lo mid done ps pj c pe body r Hlo Hpj Hc Hb _ Hr IHr]; intros Hl2; cbn [app].
+                 | lo mid done ps pj c pe body r Hlo Hpj Hc Hb _ Hx Hr IHr
+                 | lo mid conv p t r Hlo Hr IHr]; intros Hl2; cbn [app].
   - apply (wp_lower mid lo hi l2 Hl2). assumption.
   - apply wp_plain; [assumption | assumption | apply IH; exact Hl2].
   - apply wp_if; try assumption. apply IHr. exact Hl2.
   - apply wp_ife; try assumption. apply IHr. exact Hl2.
   - apply wp_while; try assumption. apply IHr. exact Hl2.
+  - apply wp_exit; [assumption | apply IHr; exact Hl2].
 Qed.
 
 (* ---- shapes of the statements involved ---- *)
 Definition st_ok (st : node) : bool :=
   match st with
   | Stmt _ (Binary _ _ _ _) | Stmt _ (Call _ _ _ _ _ _) | Stmt _ (Jz _ _ _) | Stmt _ (IfThen _ _ _ _) | Stmt _ (Jump _ _)
-  | Stmt _ (Repeat _ _ _ _ _ _ _ _ _) => true
+  | Stmt _ (Repeat _ _ _ _ _ _ _ _ _) | Stmt _ (ExitRepeat _) => true
   | _ => false
   end.
 (* not an unconditional jump *)
@@ -202,7 +247,7 @@ Proof. unfold node_eq. cbn [pos_of]. rewrite Z.eqb_refl. reflexivity. Qed.
 (* positions and shapes: a jump carries the position of its statement; an unconditional jump stays below hi *)
 Definition jz_pos (st : node) : Prop := match st with Stmt q (Jz q' _ _) => q = q' | _ => True end.
 Definition jump_le (hi : Z) (st : node) : Prop := match st with Stmt _ (Jump _ t) => t <= hi | _ => True end.
-Definition within (lo hi : Z) (st : node) : Prop := st_ok st = true /\ lo <= pos_of st < hi /\ jz_pos st /\ jump_le hi st.
+Definition within (lo hi : Z) (st : node) : Prop := st_ok st = true /\ lo <= pos_of st < hi /\ jz_pos st.
 
 Lemma plain_jz_pos st : plain_stmt st = true -> jz_pos st.
 Proof. destruct st; try discriminate. destruct st; try discriminate; intros _; exact I. Qed.
@@ -211,11 +256,10 @@ Proof. destruct st; try discriminate. destruct st; try discriminate; intros _; e
 
 Lemma within_weaken lo hi lo' hi' st : within lo hi st -> lo' <= lo -> hi <= hi' -> within lo' hi' st.
 Proof.
-  intros (H1 & H2 & H3 & H4) ? ?. repeat split; try assumption; try lia.
-  destruct st; try exact I. destruct st; try exact I. cbn [jump_le] in *. lia.
+  intros (H1 & H2 & H3) ? ?. repeat split; try assumption; try lia.
 Qed.
 Lemma within_plain lo hi st : plain_stmt st = true -> lo <= pos_of st < hi -> within lo hi st.
-Proof. intros Hp Hpos. repeat split; [apply plain_st_ok; exact Hp | lia | lia | apply plain_jz_pos; exact Hp | apply plain_jump_le; exact Hp]. Qed.
+Proof. intros Hp Hpos. repeat split; [apply plain_st_ok; exact Hp | lia | lia | apply plain_jz_pos; exact Hp]. Qed.
 
 Lemma Forall_within_weaken lo hi lo' hi' l : Forall (within lo hi) l -> lo' <= lo -> hi <= hi' -> Forall (within lo' hi') l.
 Proof. intros H ? ?. eapply Forall_impl; [|exact H]. intros x Hx. eapply within_weaken; eauto. Qed.
@@ -224,7 +268,8 @@ Lemma flats_within lo hi l : wp lo hi l -> Forall (within lo hi) (flats l).
 Proof.
   induction 1 as [lo hi H | lo hi st r Hp Hlo Hr IH | lo hi p c a body r Hlo Hne Hb IHb Hr IHr
                  | lo hi p c eb body jp je ebody r Hlo Hne Hne' Hb IHb Hj He IHe Hr IHr
-                 | lo hi done ps pj c pe body r Hlo Hpj Hc Hb IHb Hr IHr].
+                 | lo hi done ps pj c pe body r Hlo Hpj Hc Hb IHb Hx Hr IHr
+                 | lo hi conv xp xt r Hlo Hr IHr].
   - constructor.
   - cbn [flats flat_i app]. pose proof (wp_le _ _ _ Hr). constructor; [apply within_plain; [exact Hp | lia]|].
     apply (Forall_within_weaken _ _ _ _ _ IH); lia.
@@ -240,13 +285,16 @@ Proof.
       * apply (Forall_within_weaken _ _ _ _ _ IHr); lia.
   - cbn [flats]. rewrite flat_while. pose proof (wp_le _ _ _ Hb). pose proof (wp_le _ _ _ Hr).
     cbn [app]. constructor; [repeat split; cbn [pos_of loop_stmt]; lia|]. apply (Forall_within_weaken _ _ _ _ _ IHr); lia.
+  - cbn [flats flat_i app]. pose proof (wp_le _ _ _ Hr).
+    constructor; [destruct conv; repeat split; cbn [pos_of]; lia|]. apply (Forall_within_weaken _ _ _ _ _ IHr); lia.
 Qed.
 
 Lemma trees_within lo hi l : wp lo hi l -> Forall (within lo hi) (trees l).
 Proof.
   induction 1 as [lo hi H | lo hi st r Hp Hlo Hr IH | lo hi p c a body r Hlo Hne Hb IHb Hr IHr
                  | lo hi p c eb body jp je ebody r Hlo Hne Hne' Hb IHb Hj He IHe Hr IHr
-                 | lo hi done ps pj c pe body r Hlo Hpj Hc Hb IHb Hr IHr].
+                 | lo hi done ps pj c pe body r Hlo Hpj Hc Hb IHb Hx Hr IHr
+                 | lo hi conv xp xt r Hlo Hr IHr].
   - constructor.
   - cbn [trees tree_i]. pose proof (wp_le _ _ _ Hr). constructor; [apply within_plain; [exact Hp | lia]|].
     apply (Forall_within_weaken _ _ _ _ _ IH); lia.
@@ -256,11 +304,42 @@ Proof.
     constructor; [repeat split; cbn [pos_of]; lia|]. apply (Forall_within_weaken _ _ _ _ _ IHr); lia.
   - cbn [trees]. rewrite tree_while. pose proof (wp_le _ _ _ Hb). pose proof (wp_le _ _ _ Hr).
     constructor; [repeat split; cbn [pos_of loop_stmt]; lia|]. apply (Forall_within_weaken _ _ _ _ _ IHr); lia.
+  - cbn [trees tree_i]. pose proof (wp_le _ _ _ Hr).
+    constructor; [repeat split; cbn [pos_of]; lia|]. apply (Forall_within_weaken _ _ _ _ _ IHr); lia.
+Qed.
+
+(* unconditional jumps stay below hi once the exits are converted *)
+Lemma Forall_jump_le_weaken hi hi' l : Forall (jump_le hi) l -> hi <= hi' -> Forall (jump_le hi') l.
+Proof.
+  intros H ?. eapply Forall_impl; [|exact H]. intros st Hs. destruct st; try exact I. destruct st; try exact I. cbn [jump_le] in *. lia.
+Qed.
+Lemma flats_jump_le lo hi l : wp lo hi l -> exits_done l = true -> Forall (jump_le hi) (flats l).
+Proof.
+  induction 1 as [lo hi H | lo hi st r Hp Hlo Hr IH | lo hi p c a body r Hlo Hne Hb IHb Hr IHr
+                 | lo hi p c eb body jp je ebody r Hlo Hne Hne' Hb IHb Hj He IHe Hr IHr
+                 | lo hi done ps pj c pe body r Hlo Hpj Hc Hb IHb Hx Hr IHr
+                 | lo hi conv xp xt r Hlo Hr IHr]; cbn [exits_done]; intros Hd.
+  - constructor.
+  - cbn [flats flat_i app]. constructor; [apply plain_jump_le; exact Hp | apply IH; apply andb_prop in Hd; tauto].
+  - rewrite exits_done_if in Hd. apply andb_prop in Hd. destruct Hd as [Hd1 Hd2].
+    cbn [flats]. rewrite flat_if. pose proof (wp_le _ _ _ Hr). cbn [app]. constructor; [exact I|]. apply Forall_app. split.
+    + apply (Forall_jump_le_weaken a); [apply IHb; exact Hd1 | lia].
+    + apply IHr; exact Hd2.
+  - rewrite exits_done_ife in Hd. apply andb_prop in Hd. destruct Hd as [Hd1 Hd2]. apply andb_prop in Hd1. destruct Hd1 as [Hd1 Hd3].
+    cbn [flats]. rewrite flat_ife. pose proof (wp_le _ _ _ He). pose proof (wp_le _ _ _ Hr).
+    cbn [app]. constructor; [exact I|]. rewrite <- app_assoc. apply Forall_app. split.
+    + apply (Forall_jump_le_weaken jp); [apply IHb; exact Hd1 | lia].
+    + cbn [app]. constructor; [cbn [jump_le]; lia|]. apply Forall_app. split.
+      * apply (Forall_jump_le_weaken je); [apply IHe; exact Hd3 | lia].
+      * apply IHr; exact Hd2.
+  - cbn [flats]. rewrite flat_while. cbn [app]. constructor; [exact I|]. apply IHr. apply andb_prop in Hd; tauto.
+  - apply andb_prop in Hd. destruct Hd as [Hd1 Hd2]. cbn [exits_done_i] in Hd1. subst conv.
+    cbn [flats flat_i app]. constructor; [exact I | apply IHr; exact Hd2].
 Qed.
 
 Lemma within_not_jz lo hi p st : within lo hi st -> p < lo \/ hi <= p -> not_jz_at p st = true.
 Proof.
-  intros (Hok & Hpos & Hq & _) Hp. destruct st as [| | | | | | | | | | | | |q code| | | | | | | | |]; try reflexivity.
+  intros (Hok & Hpos & Hq) Hp. destruct st as [| | | | | | | | | | | | |q code| | | | | | | | |]; try reflexivity.
   destruct code; try reflexivity. cbn [not_jz_at pos_of jz_pos] in *. subst. apply negb_true_iff. apply Z.eqb_neq. lia.
 Qed.
 
@@ -277,20 +356,28 @@ Proof. destruct l as [|x r]; [congruence|]. intros _. cbn [flats]. destruct x; d
 
 (* a flat list never ends with an unconditional jump *)
 Definition noj_opt (o : option node) : Prop := match o with Some st => noj st = true | None => True end.
-Lemma flats_last_noj lo hi l : wp lo hi l -> noj_opt (lastn (flats l)).
+Lemma flats_last_noj lo hi l : wp lo hi l -> exits_done l = true -> noj_opt (lastn (flats l)).
 Proof.
   induction 1 as [lo hi H | lo hi st r Hp Hlo Hr IH | lo hi p c a body r Hlo Hne Hb IHb Hr IHr
                  | lo hi p c eb body jp je ebody r Hlo Hne Hne' Hb IHb Hj He IHe Hr IHr
-                 | lo hi done ps pj c pe body r Hlo Hpj Hc Hb IHb Hr IHr].
+                 | lo hi done ps pj c pe body r Hlo Hpj Hc Hb IHb Hx Hr IHr
+                 | lo hi conv xp xt r Hlo Hr IHr]; cbn [exits_done]; intros Hd.
   - exact I.
-  - cbn [flats flat_i app]. rewrite lastn_cons. destruct (lastn (flats r)); [exact IH | apply plain_noj; exact Hp].
-  - cbn [flats]. rewrite flat_if. cbn [app]. rewrite lastn_cons, lastn_app.
+  - apply andb_prop in Hd. destruct Hd as [_ Hd]. specialize (IH Hd).
+    cbn [flats flat_i app]. rewrite lastn_cons. destruct (lastn (flats r)); [exact IH | apply plain_noj; exact Hp].
+  - rewrite exits_done_if in Hd. apply andb_prop in Hd. destruct Hd as [Hd1 Hd2]. specialize (IHb Hd1). specialize (IHr Hd2).
+    cbn [flats]. rewrite flat_if. cbn [app]. rewrite lastn_cons, lastn_app.
     destruct (lastn (flats r)); [exact IHr|].
     destruct (lastn (flats body)) eqn:E; [exact IHb|]. exfalso. apply (flats_nonempty body Hne). apply lastn_none. exact E.
-  - cbn [flats]. rewrite flat_ife. cbn [app]. rewrite lastn_cons, <- app_assoc, lastn_app. cbn [app]. rewrite lastn_cons, lastn_app.
+  - rewrite exits_done_ife in Hd. apply andb_prop in Hd. destruct Hd as [Hd1 Hd2]. apply andb_prop in Hd1. destruct Hd1 as [Hd1 Hd3].
+    specialize (IHe Hd3). specialize (IHr Hd2).
+    cbn [flats]. rewrite flat_ife. cbn [app]. rewrite lastn_cons, <- app_assoc, lastn_app. cbn [app]. rewrite lastn_cons, lastn_app.
     destruct (lastn (flats r)); [exact IHr|].
     destruct (lastn (flats ebody)) eqn:E; [exact IHe|]. exfalso. apply (flats_nonempty ebody Hne'). apply lastn_none. exact E.
-  - cbn [flats]. rewrite flat_while. cbn [app]. rewrite lastn_cons. destruct (lastn (flats r)); [exact IHr | reflexivity].
+  - apply andb_prop in Hd. destruct Hd as [_ Hd]. specialize (IHr Hd).
+    cbn [flats]. rewrite flat_while. cbn [app]. rewrite lastn_cons. destruct (lastn (flats r)); [exact IHr | reflexivity].
+  - apply andb_prop in Hd. destruct Hd as [Hd1 Hd]. specialize (IHr Hd). cbn [exits_done_i] in Hd1. subst conv.
+    cbn [flats flat_i app]. rewrite lastn_cons. destruct (lastn (flats r)); [exact IHr | reflexivity].
 Qed.
 
 (* ---- collect_if: the statements strictly inside the then part ---- *)
@@ -401,7 +488,7 @@ Qed.
 
 (* ---- the scan that picks the jumps opening an if at this level ---- *)
 Definition top_jzs (l : list item) : list node :=
-  flat_map (fun i => match i with IIf p c a _ => [Jz p c a] | IIfE p c eb _ _ _ _ => [Jz p c eb] | IPlain _ | IWhile _ _ _ _ _ _ => [] end) l.
+  flat_map (fun i => match i with IIf p c a _ => [Jz p c a] | IIfE p c eb _ _ _ _ => [Jz p c eb] | IPlain _ | IWhile _ _ _ _ _ _ | IExit _ _ _ => [] end) l.
 
 Definition scan_ok (lo : Z) (s : scan_state) : Prop :=
   match sc_addr s with Some x => x <= lo | None => True end /\ (sc_in_else s = true \/ noj_opt (sc_prev s)).
@@ -448,12 +535,14 @@ Proof.
     rewrite E. rewrite (IH (Build_scan_state (sc_addr s) (Some st) (sc_in_else s) (sc_jz s)) Ha HB'). cbn [sc_prev sc_in_else sc_jz]. rewrite lastn_cons. destruct (lastn B); reflexivity.
 Qed.
 
-Lemma scan_flats e lo hi l : wp lo hi l -> le_opt hi e -> forall s, scan_ok lo s ->
+Lemma scan_flats e lo hi l : wp lo hi l -> exits_done l = true -> le_opt hi e -> forall s, scan_ok lo s ->
   let s' := fold_left (scan_step e) (flats l) s in scan_ok hi s' /\ sc_jz s' = sc_jz s ++ top_jzs l.
 Proof.
   induction 1 as [lo hi H | lo hi st r Hp Hlo Hr IH | lo hi p c a body r Hlo Hne Hb _ Hr IHr
                  | lo hi p c eb body jp je ebody r Hlo Hne Hne' Hb _ Hj He _ Hr IHr
-                 | lo hi done ps pj c pe body r Hlo Hpj Hc Hb _ Hr IHr]; intros Hle s Hs.
+                 | lo hi done ps pj c pe body r Hlo Hpj Hc Hb _ Hx Hr IHr
+                 | lo hi conv xp xt r Hlo Hr IHr]; cbn [exits_done]; intros Hd Hle s Hs;
+    try (apply andb_prop in Hd; destruct Hd as [Hd1 Hd]; try specialize (IH Hd); try specialize (IHr Hd)).
   - cbn. split; [|rewrite app_nil_r; reflexivity]. destruct Hs as (H1 & H2). split; [|exact H2].
     destruct (sc_addr s); [lia|exact I].
   - cbn [flats flat_i app fold_left]. rewrite (scan_step_top e s st lo Hs Hlo).
@@ -474,7 +563,7 @@ Proof.
       by (eapply Forall_impl; [|exact (flats_within _ _ _ Hb)]; intros x (_ & Hx & _); lia).
     cbn [sc_prev sc_in_else sc_jz s1].
     destruct (lastn (flats body)) as [lb|] eqn:El; [|exfalso; apply (flats_nonempty body Hne); apply lastn_none; exact El].
-    pose proof (flats_last_noj _ _ _ Hb) as Hlb. rewrite El in Hlb. cbn [noj_opt] in Hlb.
+    rewrite exits_done_if in Hd1. pose proof (flats_last_noj _ _ _ Hb Hd1) as Hlb. rewrite El in Hlb. cbn [noj_opt] in Hlb.
     destruct (IHr Hle (Build_scan_state (Some a) (Some lb) false (sc_jz s ++ [Jz p c a]))) as [I1 I2].
     + split; [cbn [sc_addr]; lia | right; exact Hlb].
     + split; [exact I1|]. rewrite I2. cbn [sc_jz top_jzs flat_map]. rewrite <- app_assoc. reflexivity.
@@ -510,6 +599,13 @@ Proof.
   - (* a loop is one statement that is no jump *)
     pose proof (wp_le _ _ _ Hb) as Hbe. cbn [flats]. rewrite flat_while. cbn [app fold_left].
     match goal with |- context [scan_step e s ?st] => rewrite (scan_step_top e s st lo Hs ltac:(cbn [pos_of loop_stmt]; lia)) end. cbn [loop_stmt].
+    cbn [top_jzs flat_map app]. destruct (settle_facts lo s Hs) as (K1 & K2 & K3 & K4).
+    destruct (IHr Hle (settle s)) as [I1 I2].
+    + split; [destruct (sc_addr (settle s)); [lia|exact I] | right; exact K2].
+    + split; [exact I1 | rewrite I2, K3; reflexivity].
+  - (* a converted exit is one statement that is no jump *)
+    cbn [exits_done_i] in Hd1. subst conv. cbn [flats flat_i app fold_left].
+    rewrite (scan_step_top e s (Stmt xp (ExitRepeat xp)) lo Hs ltac:(cbn [pos_of]; lia)).
     cbn [top_jzs flat_map app]. destruct (settle_facts lo s Hs) as (K1 & K2 & K3 & K4).
     destruct (IHr Hle (settle s)) as [I1 I2].
     + split; [destruct (sc_addr (settle s)); [lia|exact I] | right; exact K2].
@@ -550,9 +646,9 @@ Proof.
   induction H as [|st sts Hst _ IH]; [reflexivity|]. cbn [map]. rewrite IH.
   destruct st; try reflexivity. destruct st; try reflexivity. cbn [jump_in lt_opt] in Hst. rewrite Hst. reflexivity.
 Qed.
-Lemma within_jump_in lo hi e st : within lo hi st -> le_opt hi e -> jump_in e st.
+Lemma jump_le_jump_in hi e st : jump_le hi st -> le_opt hi e -> jump_in e st.
 Proof.
-  intros (_ & _ & _ & Hj) Hle. destruct st; try exact I. destruct st; try exact I. cbn [jump_in jump_le] in *.
+  intros Hj Hle. destruct st; try exact I. destruct st; try exact I. cbn [jump_in jump_le] in *.
   apply (lt_opt_le hi e addr Hle Hj).
 Qed.
 
@@ -600,6 +696,7 @@ Fixpoint mark_i (i : item) : item :=
   | IIf p c a body => IIf p c a (mk body)
   | IIfE p c eb body jp je ebody => IIfE p c eb (mk body) jp je (mk ebody)
   | IWhile _ ps pj c pe body => IWhile true ps pj c pe body
+  | IExit conv p t => IExit conv p t
   end.
 Fixpoint marks (l : list item) : list item := match l with [] => [] | x :: r => mark_i x :: marks r end.
 
@@ -607,12 +704,93 @@ Lemma mark_if p c a body : mark_i (IIf p c a body) = IIf p c a (marks body). Pro
 Lemma mark_ife p c eb body jp je ebody : mark_i (IIfE p c eb body jp je ebody) = IIfE p c eb (marks body) jp je (marks ebody).
 Proof. reflexivity. Qed.
 
+(* the exits of a list level, converted (through ifs; inner loops have their own) *)
+Fixpoint conv_i (i : item) : item :=
+  let cv := fix cv (l : list item) : list item := match l with [] => [] | x :: r => conv_i x :: cv r end in
+  match i with
+  | IPlain st => IPlain st
+  | IIf p c a body => IIf p c a (cv body)
+  | IIfE p c eb body jp je ebody => IIfE p c eb (cv body) jp je (cv ebody)
+  | IWhile d ps pj c pe body => IWhile d ps pj c pe body
+  | IExit _ p t => IExit true p t
+  end.
+Fixpoint convs (l : list item) : list item := match l with [] => [] | x :: r => conv_i x :: convs r end.
+Lemma conv_if p c a body : conv_i (IIf p c a body) = IIf p c a (convs body). Proof. reflexivity. Qed.
+Lemma conv_ife p c eb body jp je ebody : conv_i (IIfE p c eb body jp je ebody) = IIfE p c eb (convs body) jp je (convs ebody).
+Proof. reflexivity. Qed.
+
+Lemma convs_facts lo hi l : wp lo hi l ->
+  wp lo hi (convs l) /\ trees (convs l) = trees l /\ depths (convs l) = depths l /\ fins (convs l) = fins l /\ exits_done (convs l) = true.
+Proof.
+  induction 1 as [lo hi H | lo hi st r Hp Hlo Hr IH | lo hi p c a body r Hlo Hne Hb IHb Hr IHr
+                 | lo hi p c eb body jp je ebody r Hlo Hne Hne' Hb IHb Hj He IHe Hr IHr
+                 | lo hi done ps pj c pe body r Hlo Hpj Hc Hb IHb Hx Hr IHr
+                 | lo hi conv xp xt r Hlo Hr IHr].
+  - repeat split; try reflexivity. apply wp_nil. exact H.
+  - destruct IH as (I1 & I2 & I3 & I5 & I6). cbn [convs conv_i trees tree_i fins fin_i exits_done exits_done_i]. rewrite depths_cons. cbn [depths].
+    repeat split; [apply wp_plain; assumption | rewrite I2; reflexivity | rewrite I3; reflexivity | rewrite I5; reflexivity | exact I6].
+  - destruct IHb as (B1 & B2 & B3 & B5 & B6). destruct IHr as (R1 & R2 & R3 & R5 & R6).
+    cbn [convs]. rewrite conv_if. cbn [trees fins exits_done]. rewrite exits_done_if, !tree_if, !fin_if, !depths_cons, !depth_if, B2, B3, B5, B6, R2, R3, R5, R6.
+    repeat split. apply wp_if; try assumption. destruct body; [congruence|discriminate].
+  - destruct IHb as (B1 & B2 & B3 & B5 & B6). destruct IHe as (E1 & E2 & E3 & E5 & E6). destruct IHr as (R1 & R2 & R3 & R5 & R6).
+    cbn [convs]. rewrite conv_ife. cbn [trees fins exits_done]. rewrite exits_done_ife, !tree_ife, !fin_ife, !depths_cons, !depth_ife, B2, B3, B5, B6, E2, E3, E5, E6, R2, R3, R5, R6.
+    repeat split. apply wp_ife; try assumption; [destruct body; [congruence|discriminate] | destruct ebody; [congruence|discriminate]].
+  - destruct IHr as (R1 & R2 & R3 & R5 & R6).
+    cbn [convs conv_i trees fins exits_done exits_done_i]. rewrite !tree_while, !fin_while, !depths_cons, !depth_while, R2, R3, R5, R6.
+    repeat split. apply wp_while; assumption.
+  - destruct IHr as (R1 & R2 & R3 & R5 & R6).
+    cbn [convs conv_i trees tree_i fins fin_i exits_done exits_done_i]. rewrite !depths_cons, R2, R3, R5, R6. cbn [depth_i].
+    repeat split. apply wp_exit; assumption.
+Qed.
+
+(* what the first step of condition_detect does to the list of a loop body *)
+Lemma exit_jumps_app l1 l2 e : exit_jumps (l1 ++ l2) e = exit_jumps l1 e ++ exit_jumps l2 e.
+Proof. destruct e; [apply map_app | reflexivity]. Qed.
+Lemma exit_conv lo hi l pe : wp lo hi l -> hi <= pe -> exits_gt pe l = true -> exit_jumps (flats l) (Some pe) = flats (convs l).
+Proof.
+  induction 1 as [lo hi H | lo hi st r Hp Hlo Hr IH | lo hi p c a body r Hlo Hne Hb IHb Hr IHr
+                 | lo hi p c eb body jp je ebody r Hlo Hne Hne' Hb IHb Hj He IHe Hr IHr
+                 | lo hi done ps pj c pe' body r Hlo Hpj Hc Hb IHb Hx Hr IHr
+                 | lo hi conv xp xt r Hlo Hr IHr]; cbn [exits_gt]; intros Hle Hg;
+    try (apply andb_prop in Hg; destruct Hg as [Hg1 Hg]).
+  - reflexivity.
+  - cbn [flats convs conv_i flat_i]. rewrite !exit_jumps_app, (IH Hle Hg).
+    destruct st; try discriminate Hp. destruct st; try discriminate Hp; reflexivity.
+  - pose proof (wp_le _ _ _ Hr). rewrite exits_gt_if in Hg1.
+    cbn [flats convs]. rewrite conv_if, !flat_if. change (Stmt p (Jz p c a) :: flats body) with ([Stmt p (Jz p c a)] ++ flats body).
+    rewrite !exit_jumps_app, (IHb ltac:(lia) Hg1), (IHr Hle Hg). reflexivity.
+  - pose proof (wp_le _ _ _ He). pose proof (wp_le _ _ _ Hr). rewrite exits_gt_ife in Hg1. apply andb_prop in Hg1. destruct Hg1 as [Hg1 Hg2].
+    cbn [flats convs]. rewrite conv_ife, !flat_ife.
+    change (Stmt p (Jz p c eb) :: flats body ++ Stmt jp (Jump jp je) :: flats ebody)
+      with ([Stmt p (Jz p c eb)] ++ flats body ++ [Stmt jp (Jump jp je)] ++ flats ebody).
+    rewrite !exit_jumps_app, (IHb ltac:(lia) Hg1), (IHe ltac:(lia) Hg2), (IHr Hle Hg).
+    cbn [exit_jumps map]. replace (pe <? je) with false by (symmetry; apply Z.ltb_ge; lia). reflexivity.
+  - cbn [flats convs conv_i]. rewrite !flat_while, !exit_jumps_app, (IHr Hle Hg). reflexivity.
+  - cbn [flats convs conv_i flat_i]. rewrite !exit_jumps_app, (IHr Hle Hg). destruct conv; [reflexivity|].
+    cbn [orb exits_gt_i] in Hg1. cbn [exit_jumps map]. rewrite Hg1. reflexivity.
+Qed.
+
+Lemma marks_exits lo hi l : wp lo hi l -> exits_done (marks l) = exits_done l.
+Proof.
+  induction 1 as [lo hi H | lo hi st r Hp Hlo Hr IH | lo hi p c a body r Hlo Hne Hb IHb Hr IHr
+                 | lo hi p c eb body jp je ebody r Hlo Hne Hne' Hb IHb Hj He IHe Hr IHr
+                 | lo hi done ps pj c pe body r Hlo Hpj Hc Hb IHb Hx Hr IHr
+                 | lo hi conv xp xt r Hlo Hr IHr]; cbn [marks exits_done].
+  - reflexivity.
+  - rewrite IH. reflexivity.
+  - rewrite mark_if, !exits_done_if, IHb, IHr. reflexivity.
+  - rewrite mark_ife, !exits_done_ife, IHb, IHe, IHr. reflexivity.
+  - rewrite IHr. reflexivity.
+  - rewrite IHr. reflexivity.
+Qed.
+
 Lemma marks_facts lo hi l : wp lo hi l ->
   wp lo hi (marks l) /\ trees (marks l) = trees l /\ depths (marks l) = depths l /\ top_jzs (marks l) = top_jzs l /\ fins (marks l) = fins l.
 Proof.
   induction 1 as [lo hi H | lo hi st r Hp Hlo Hr IH | lo hi p c a body r Hlo Hne Hb IHb Hr IHr
                  | lo hi p c eb body jp je ebody r Hlo Hne Hne' Hb IHb Hj He IHe Hr IHr
-                 | lo hi done ps pj c pe body r Hlo Hpj Hc Hb IHb Hr IHr].
+                 | lo hi done ps pj c pe body r Hlo Hpj Hc Hb IHb Hx Hr IHr
+                 | lo hi conv xp xt r Hlo Hr IHr].
   - repeat split; try reflexivity. apply wp_nil. exact H.
   - destruct IH as (I1 & I2 & I3 & I4 & I5). cbn [marks mark_i trees tree_i fins fin_i]. rewrite depths_cons. cbn [depths].
     repeat split; [apply wp_plain; assumption | rewrite I2; reflexivity | rewrite I3; reflexivity | exact I4 | rewrite I5; reflexivity].
@@ -628,6 +806,10 @@ Proof.
     cbn [marks mark_i trees fins]. rewrite !tree_while, !fin_while, !depths_cons, !depth_while, R2, R3, R5.
     repeat split; [|cbn [top_jzs flat_map]; fold (top_jzs (marks r)); fold (top_jzs r); rewrite R4; reflexivity].
     apply wp_while; assumption.
+  - destruct IHr as (R1 & R2 & R3 & R4 & R5).
+    cbn [marks mark_i trees tree_i fins fin_i]. rewrite !depths_cons, R2, R3, R5.
+    repeat split; [|cbn [top_jzs flat_map]; fold (top_jzs (marks r)); fold (top_jzs r); rewrite R4; reflexivity].
+    apply wp_exit; assumption.
 Qed.
 
 (* all loops of this list level are converted *)
@@ -638,6 +820,7 @@ Fixpoint lvl_done_i (i : item) : bool :=
   | IIf _ _ _ body => ld body
   | IIfE _ _ _ body _ _ ebody => ld body && ld ebody
   | IWhile done _ _ _ _ _ => done
+  | IExit _ _ _ => true
   end.
 Fixpoint lvl_done (l : list item) : bool := match l with [] => true | x :: r => lvl_done_i x && lvl_done r end.
 Lemma lvl_done_if p c a body : lvl_done_i (IIf p c a body) = lvl_done body. Proof. reflexivity. Qed.
@@ -647,18 +830,20 @@ Lemma lvl_done_marks lo hi l : wp lo hi l -> lvl_done (marks l) = true.
 Proof.
   induction 1 as [lo hi H | lo hi st r Hp Hlo Hr IH | lo hi p c a body r Hlo Hne Hb IHb Hr IHr
                  | lo hi p c eb body jp je ebody r Hlo Hne Hne' Hb IHb Hj He IHe Hr IHr
-                 | lo hi done ps pj c pe body r Hlo Hpj Hc Hb IHb Hr IHr]; cbn [marks lvl_done].
+                 | lo hi done ps pj c pe body r Hlo Hpj Hc Hb IHb Hx Hr IHr
+                 | lo hi conv xp xt r Hlo Hr IHr]; cbn [marks lvl_done].
   - reflexivity.
   - exact IH.
   - rewrite mark_if, lvl_done_if, IHb, IHr. reflexivity.
   - rewrite mark_ife, lvl_done_ife, IHb, IHe, IHr. reflexivity.
+  - exact IHr.
   - exact IHr.
 Qed.
 
 (* ---- condition_detect leaves converted lists alone ---- *)
 Definition quiet (st : node) : bool :=
   match st with
-  | Stmt _ (Binary _ _ _ _) | Stmt _ (Call _ _ _ _ _ _) | Stmt _ (IfThen _ _ _ _) | Stmt _ (Repeat _ _ _ _ _ _ _ _ _) => true
+  | Stmt _ (Binary _ _ _ _) | Stmt _ (Call _ _ _ _ _ _) | Stmt _ (IfThen _ _ _ _) | Stmt _ (Repeat _ _ _ _ _ _ _ _ _) | Stmt _ (ExitRepeat _) => true
   | _ => false
   end.
 Definition if_stmt (st : node) : bool := match st with Stmt _ (IfThen _ _ _ _) => true | _ => false end.
@@ -716,7 +901,8 @@ Proof.
     - clear HD D0. revert Hd.
       induction Hwp as [lo hi H | lo hi st r Hp Hlo Hr IH | lo hi p c a body r Hlo Hne Hb _ Hr IHr
                        | lo hi p c eb body jp je ebody r Hlo Hne Hne' Hb _ Hj He _ Hr IHr
-                       | lo hi done ps pj c pe body r Hlo Hpj Hc Hb _ Hr IHr]; intros Hd; cbn [trees].
+                       | lo hi done ps pj c pe body r Hlo Hpj Hc Hb _ Hx Hr IHr
+                 | lo hi conv xp xt r Hlo Hr IHr]; intros Hd; cbn [trees].
       + constructor.
       + rewrite depths_cons in Hd. constructor; [|apply IH; lia]. cbn [tree_i].
         destruct st; try discriminate Hp. destruct st; try discriminate Hp; reflexivity.
@@ -726,7 +912,8 @@ Proof.
         rewrite tree_while. cbn [loop_stmt cd_map].
         change (exit_if pj c :: trees body) with ([exit_if pj c] ++ trees body).
         rewrite (IHf (Some pe) body (pj + 1) pe [exit_if pj c] Hb ltac:(lia)) by (constructor; [reflexivity|constructor]).
-        reflexivity. }
+        reflexivity.
+      + rewrite depths_cons in Hd. constructor; [reflexivity | apply IHr; lia]. }
   rewrite Em. cbn [bind]. unfold scan_jz. rewrite scan_quiet; [reflexivity|].
   apply Forall_app. split.
   - eapply Forall_impl; [|exact HD]. intros x Hx. destruct x; try discriminate Hx. destruct x; try discriminate Hx. reflexivity.
@@ -735,9 +922,9 @@ Qed.
 
 Section Level.
   Variable f : nat.
-  Hypothesis IHcd : forall e l lo hi tail, wp lo hi l -> le_opt hi e -> tail_ok hi tail -> Forall (jump_in e) tail -> (depths l < f)%nat ->
+  Hypothesis IHcd : forall e l lo hi tail, wp lo hi l -> exits_done l = true -> le_opt hi e -> tail_ok hi tail -> Forall (jump_in e) tail -> (depths l < f)%nat ->
     condition_detect f (flats l ++ tail) e = Ok (trees l ++ tail).
-  Hypothesis IHw : forall pj c pe body, wp (pj + 1) pe body -> (depths body < f)%nat ->
+  Hypothesis IHw : forall pj c pe body, wp (pj + 1) pe body -> exits_gt pe body = true -> (depths body < f)%nat ->
     condition_detect f (Stmt pj (Jz pj c (pe + 2)) :: flats body) (Some pe) = Ok (exit_if pj c :: trees body).
 
   (* the first step of the pass: every loop of the list is converted *)
@@ -745,7 +932,8 @@ Section Level.
   Proof.
     induction 1 as [lo hi H | lo hi st r Hp Hlo Hr IH | lo hi p c a body r Hlo Hne Hb IHb Hr IHr
                    | lo hi p c eb body jp je ebody r Hlo Hne Hne' Hb IHb Hj He IHe Hr IHr
-                   | lo hi done ps pj c pe body r Hlo Hpj Hc Hb IHb Hr IHr]; intros Hd.
+                   | lo hi done ps pj c pe body r Hlo Hpj Hc Hb IHb Hx Hr IHr
+                 | lo hi conv xp xt r Hlo Hr IHr]; intros Hd.
     - reflexivity.
     - rewrite depths_cons in Hd. cbn [flats marks mark_i flat_i]. apply (map_result_app _ [st] _ [st]); [|apply IH; lia].
       cbn [map_result]. destruct st; try discriminate Hp. destruct st; try discriminate Hp; reflexivity.
@@ -766,7 +954,9 @@ Section Level.
       + change (exit_if pj c :: trees body) with ([exit_if pj c] ++ trees body).
         rewrite (cd_idem f (Some pe) body (pj + 1) pe [exit_if pj c] Hb ltac:(lia)) by (constructor; [reflexivity|constructor]).
         reflexivity.
-      + rewrite (IHw pj c pe body Hb ltac:(lia)). reflexivity.
+      + rewrite (IHw pj c pe body Hb Hx ltac:(lia)). reflexivity.
+    - rewrite depths_cons in Hd. cbn [flats marks mark_i flat_i]. apply (map_result_app _ [_] _ [_]); [|apply IHr; lia].
+      destruct conv; reflexivity.
   Qed.
 
   Lemma map_loops_tail l lo hi tail : wp lo hi l -> (depths l < S f)%nat -> tail_ok hi tail ->
@@ -801,13 +991,15 @@ Section Level.
         repeat split; [exact Hx1 | lia | apply (within_not_jz a hi p x Hx); left; lia].
   Qed.
 
-  Lemma fold_ifs : forall todo lo hi, wp lo hi todo -> le_opt hi e -> (depths todo < S f)%nat -> lvl_done todo = true ->
+  Lemma fold_ifs : forall todo lo hi, wp lo hi todo -> exits_done todo = true -> le_opt hi e -> (depths todo < S f)%nat -> lvl_done todo = true ->
     forall D tail, Forall (before_ok lo) D -> tail_ok hi tail ->
     fold_left (cd_step f e) (top_jzs todo) (Ok (D ++ flats todo ++ tail)) = Ok (D ++ trees todo ++ tail).
   Proof.
     induction 1 as [lo hi H | lo hi st r Hp Hlo Hr IH | lo hi p c a body r Hlo Hne Hb _ Hr IHr
                    | lo hi p c eb body jp je ebody r Hlo Hne Hne' Hb _ Hj He _ Hr IHr
-                   | lo hi done ps pj c pe body r Hlo Hpj Hc Hb _ Hr IHr]; intros Hle Hd Hdone D tail HD HT.
+                   | lo hi done ps pj c pe body r Hlo Hpj Hc Hb _ Hx Hr IHr
+                 | lo hi conv xp xt r Hlo Hr IHr]; cbn [exits_done]; intros Hxd Hle Hd Hdone D tail HD HT;
+      try (apply andb_prop in Hxd; destruct Hxd as [Hxd1 Hxd]; try specialize (IH Hxd); try specialize (IHr Hxd)).
     - reflexivity.
     - cbn [top_jzs flat_map app flats flat_i trees tree_i].
       change (D ++ st :: flats r ++ tail) with (D ++ [st] ++ flats r ++ tail).
@@ -845,9 +1037,10 @@ Section Level.
             + constructor; [|constructor]. split; [reflexivity | cbn [pos_of]; lia].
           - eapply Forall_impl; [|exact HB]. intros x (Hx1 & Hx2 & _). split; [exact Hx1 | lia]. }
         rewrite Erem. cbn [bind].
+        rewrite exits_done_if in Hxd1.
         rewrite (break_detect_same (flats body) e hi Hle)
-          by (eapply Forall_impl; [|exact HB]; intros x Hx; apply (within_weaken _ _ lo hi x Hx); lia).
-        pose proof (IHcd e body (p + 1) a [] Hb ltac:(destruct e; cbn [le_opt] in *; lia) (Forall_nil _) (Forall_nil _) ltac:(lia)) as Eb.
+          by (apply (Forall_jump_le_weaken a); [exact (flats_jump_le _ _ _ Hb Hxd1) | lia]).
+        pose proof (IHcd e body (p + 1) a [] Hb Hxd1 ltac:(destruct e; cbn [le_opt] in *; lia) (Forall_nil _) (Forall_nil _) ltac:(lia)) as Eb.
         rewrite !app_nil_r in Eb. rewrite Eb. cbn [bind].
         rewrite last_case; [| apply trees_nonempty; exact Hne | exact (trees_noj _ _ _ Hb)].
         rewrite <- app_assoc. cbn [app]. rewrite replace_code_all_one; [| exact HDnj | exact HRall].
@@ -869,6 +1062,7 @@ Section Level.
       assert (HEnj : Forall (fun st => st_ok st = true /\ not_jz_at p st = true) (flats ebody))
         by (eapply Forall_impl; [|exact HE]; intros x Hx; split; [apply Hx | apply (within_not_jz eb je p x Hx); left; lia]).
       assert (Hle_e : forall x, x <= hi -> le_opt x e) by (intros x Hx; destruct e; cbn [le_opt] in *; lia).
+      rewrite exits_done_ife in Hxd1. apply andb_prop in Hxd1. destruct Hxd1 as [Hxd1 Hxd2].
       assert (Estep : cd_step f e (Ok (D ++ (Stmt p (Jz p c eb) :: flats body ++ J :: flats ebody) ++ flats r ++ tail)) (Jz p c eb)
                       = Ok ((D ++ [Stmt p (IfThen p c (trees body) (trees ebody))]) ++ flats r ++ tail)).
       { unfold cd_step. cbn [bind]. rewrite (lt_opt_le hi e eb Hle ltac:(lia)). cbn [app].
@@ -905,10 +1099,10 @@ Section Level.
         rewrite Erem. cbn [bind].
         rewrite (break_detect_same (flats body ++ [J]) e hi Hle).
         2:{ apply Forall_app. split.
-            - eapply Forall_impl; [|exact HB]. intros x Hx. apply (within_weaken _ _ lo hi x Hx); lia.
+            - apply (Forall_jump_le_weaken jp); [exact (flats_jump_le _ _ _ Hb Hxd1) | lia].
             - constructor; [cbn [jump_le J]; lia | constructor]. }
         assert (HTJ : tail_ok jp [J]) by (apply Forall_cons; [split; [reflexivity | cbn [pos_of J]; lia] | apply Forall_nil]).
-        rewrite (IHcd e body (p + 1) jp [J] Hb (Hle_e jp ltac:(lia)) HTJ ltac:(constructor; [exact (lt_opt_le hi e je Hle Hjh) | constructor]) ltac:(lia)).
+        rewrite (IHcd e body (p + 1) jp [J] Hb Hxd1 (Hle_e jp ltac:(lia)) HTJ ltac:(constructor; [exact (lt_opt_le hi e je Hle Hjh) | constructor]) ltac:(lia)).
         cbn [bind]. rewrite rev_app_distr. cbn [rev app J].
         rewrite (lt_opt_le hi e je Hle Hjh).
         (* the else part *)
@@ -930,8 +1124,8 @@ Section Level.
           - eapply Forall_impl; [|exact HE]. intros x (Hx1 & Hx2 & _). split; [exact Hx1 | lia]. }
         rewrite Erem2. cbn [bind].
         rewrite (break_detect_same (flats ebody) e hi Hle)
-          by (eapply Forall_impl; [|exact HE]; intros x Hx; apply (within_weaken _ _ lo hi x Hx); lia).
-        pose proof (IHcd e ebody eb je [] He (Hle_e je Hjh) (Forall_nil _) (Forall_nil _) ltac:(lia)) as Eb.
+          by (apply (Forall_jump_le_weaken je); [exact (flats_jump_le _ _ _ He Hxd2) | lia]).
+        pose proof (IHcd e ebody eb je [] He Hxd2 (Hle_e je Hjh) (Forall_nil _) (Forall_nil _) ltac:(lia)) as Eb.
         rewrite !app_nil_r in Eb. rewrite Eb. cbn [bind]. rewrite rev_involutive.
         rewrite <- app_assoc. cbn [app]. rewrite replace_code_all_one; [| exact HDnj | exact HRall].
         rewrite <- app_assoc. reflexivity. }
@@ -951,13 +1145,24 @@ Section Level.
       apply Forall_app. split.
       + eapply Forall_impl; [|exact HD]. intros x (H1 & H2 & H3). repeat split; try assumption. cbn [pos_of L loop_stmt]. lia.
       + constructor; [|constructor]. repeat split; cbn [pos_of L loop_stmt]; lia.
+    - (* a converted exit is one finished statement *)
+      pose proof (wp_le _ _ _ Hr) as Hrh. cbn [exits_done_i] in Hxd1. subst conv.
+      cbn [lvl_done lvl_done_i] in Hdone.
+      cbn [top_jzs flat_map app flats flat_i trees tree_i].
+      set (L := Stmt xp (ExitRepeat xp)).
+      change (D ++ L :: flats r ++ tail) with (D ++ [L] ++ flats r ++ tail).
+      change (D ++ L :: trees r ++ tail) with (D ++ [L] ++ trees r ++ tail).
+      rewrite !(app_assoc D [L]). rewrite depths_cons in Hd. apply IHr; [exact Hle | lia | exact Hdone | | exact HT].
+      apply Forall_app. split.
+      + eapply Forall_impl; [|exact HD]. intros x (H1 & H2 & H3). repeat split; try assumption. lia.
+      + constructor; [|constructor]. repeat split; cbn [pos_of L]; lia.
   Qed.
 End Level.
 
 (* ---- condition_detect on lists (CD) and on raw loop bodies (W), together by induction on the fuel ---- *)
-Definition CD (f : nat) : Prop := forall e l lo hi tail, wp lo hi l -> le_opt hi e -> tail_ok hi tail -> Forall (jump_in e) tail -> (depths l < f)%nat ->
+Definition CD (f : nat) : Prop := forall e l lo hi tail, wp lo hi l -> exits_done l = true -> le_opt hi e -> tail_ok hi tail -> Forall (jump_in e) tail -> (depths l < f)%nat ->
   condition_detect f (flats l ++ tail) e = Ok (trees l ++ tail).
-Definition WB (f : nat) : Prop := forall pj c pe body, wp (pj + 1) pe body -> (depths body < f)%nat ->
+Definition WB (f : nat) : Prop := forall pj c pe body, wp (pj + 1) pe body -> exits_gt pe body = true -> (depths body < f)%nat ->
   condition_detect f (Stmt pj (Jz pj c (pe + 2)) :: flats body) (Some pe) = Ok (exit_if pj c :: trees body).
 
 Lemma scan_tail e : forall t lo' s, tail_ok lo' t -> scan_ok lo' s -> sc_jz (fold_left (scan_step e) t s) = sc_jz s.
@@ -971,38 +1176,47 @@ Proof.
   rewrite (IHt lo' (settle s) Ht'); [exact K3|]. split; [exact K4 | right; exact K2].
 Qed.
 
+Lemma condition_detect_unfold2 f sts e :
+  condition_detect (S f) sts e = let! sts1 := map_result (cd_map f) (exit_jumps sts e) in fold_left (cd_step f e) (scan_jz e sts1) (Ok sts1).
+Proof. reflexivity. Qed.
+
 Theorem cd_all : forall f, CD f /\ WB f.
 Proof.
-  induction f as [|f [IHcd IHw]]; [split; [intros e l lo hi tail _ _ _ _ Hd | intros pj c pe body _ Hd]; lia|].
+  induction f as [|f [IHcd IHw]]; [split; [intros e l lo hi tail _ _ _ _ _ Hd | intros pj c pe body _ _ Hd]; lia|].
   split.
   - (* a list *)
-    intros e l lo hi tail Hwp Hle HT HTj Hd.
+    intros e l lo hi tail Hwp Hxd Hle HT HTj Hd.
     rewrite condition_detect_unfold'.
     2:{ apply exit_jumps_same. apply Forall_app. split; [|exact HTj].
-        eapply Forall_impl; [|exact (flats_within _ _ _ Hwp)]. intros x Hx. exact (within_jump_in lo hi e x Hx Hle). }
+        eapply Forall_impl; [|exact (flats_jump_le _ _ _ Hwp Hxd)]. intros x Hx. exact (jump_le_jump_in hi e x Hx Hle). }
     rewrite (map_loops_tail f IHcd IHw l lo hi tail Hwp Hd HT). cbn [bind].
     destruct (marks_facts lo hi l Hwp) as (Hwm & Etr & Edp & Ejz & _).
+    pose proof (marks_exits lo hi l Hwp) as Hxm. rewrite Hxd in Hxm.
     unfold scan_jz. rewrite fold_left_app.
-    destruct (scan_flats e lo hi (marks l) Hwm Hle (Build_scan_state None None false []) ltac:(split; [exact I | right; exact I])) as [Hok Ej].
+    destruct (scan_flats e lo hi (marks l) Hwm Hxm Hle (Build_scan_state None None false []) ltac:(split; [exact I | right; exact I])) as [Hok Ej].
     rewrite (scan_tail e tail hi _ HT Hok), Ej. cbn [sc_jz app]. rewrite <- Etr.
-    exact (fold_ifs f IHcd IHw e (marks l) lo hi Hwm Hle ltac:(lia) (lvl_done_marks lo hi l Hwp) [] tail (Forall_nil _) HT).
-  - (* the body of a loop: the jump of the loop condition first *)
-    intros pj c pe body Hwp Hd.
-    pose proof (wp_le _ _ _ Hwp) as Hbe.
-    rewrite condition_detect_unfold'.
-    2:{ apply exit_jumps_same. constructor; [exact I|].
-        eapply Forall_impl; [|exact (flats_within _ _ _ Hwp)]. intros x Hx. apply (within_jump_in (pj + 1) pe (Some pe) x Hx). cbn [le_opt]. lia. }
-    change (Stmt pj (Jz pj c (pe + 2)) :: flats body) with ([Stmt pj (Jz pj c (pe + 2))] ++ flats body).
+    exact (fold_ifs f IHcd IHw e (marks l) lo hi Hwm Hxm Hle ltac:(lia) (lvl_done_marks lo hi l Hwp) [] tail (Forall_nil _) HT).
+  - (* the body of a loop: its exits are converted, then the jump of the loop condition *)
+    intros pj c pe body0 Hwp0 Hxg Hd0.
+    pose proof (wp_le _ _ _ Hwp0) as Hbe.
+    rewrite condition_detect_unfold2.
+    change (Stmt pj (Jz pj c (pe + 2)) :: flats body0) with ([Stmt pj (Jz pj c (pe + 2))] ++ flats body0).
+    rewrite exit_jumps_app, (exit_conv (pj + 1) pe body0 pe Hwp0 ltac:(lia) Hxg).
+    destruct (convs_facts (pj + 1) pe body0 Hwp0) as (Hwp & Ect & Ecd & _ & Hxd).
+    rewrite <- Ect. assert (Hd : (depths (convs body0) < S f)%nat) by (rewrite Ecd; exact Hd0).
+    set (body := convs body0) in *. clearbody body. clear Hwp0 Hxg Hd0 Ect Ecd body0.
+    change (exit_jumps [Stmt pj (Jz pj c (pe + 2))] (Some pe)) with [Stmt pj (Jz pj c (pe + 2))].
     rewrite (map_result_app (cd_map f) [Stmt pj (Jz pj c (pe + 2))] (flats body) [Stmt pj (Jz pj c (pe + 2))] (flats (marks body)) eq_refl
                             (map_loops f IHcd IHw body (pj + 1) pe Hwp Hd)).
     cbn [bind]. destruct (marks_facts (pj + 1) pe body Hwp) as (Hwm & Etr & Edp & Ejz & _).
+    pose proof (marks_exits (pj + 1) pe body Hwp) as Hxm. rewrite Hxd in Hxm.
     unfold scan_jz. cbn [app fold_left].
     assert (E1 : scan_step (Some pe) (Build_scan_state None None false []) (Stmt pj (Jz pj c (pe + 2)))
                  = Build_scan_state None None false [Jz pj c (pe + 2)]).
     { unfold scan_step. cbn [sc_addr sc_in_else sc_prev sc_jz lt_opt].
       replace (pe <? pe + 2) with true by (symmetry; apply Z.ltb_lt; lia). reflexivity. }
     rewrite E1.
-    destruct (scan_flats (Some pe) (pj + 1) pe (marks body) Hwm ltac:(cbn [le_opt]; lia) (Build_scan_state None None false [Jz pj c (pe + 2)])
+    destruct (scan_flats (Some pe) (pj + 1) pe (marks body) Hwm Hxm ltac:(cbn [le_opt]; lia) (Build_scan_state None None false [Jz pj c (pe + 2)])
                          ltac:(split; [exact I | right; exact I])) as [_ Ej].
     rewrite Ej. cbn [sc_jz app fold_left].
     (* the loop condition becomes  if not cond then exit repeat *)
@@ -1011,12 +1225,12 @@ Proof.
     { unfold cd_step. cbn [bind lt_opt]. replace (pe <? pe + 2) with true by (symmetry; apply Z.ltb_lt; lia).
       cbn [replace_code_first code_of]. rewrite node_eq_jz_refl. rewrite app_nil_r. reflexivity. }
     rewrite E2.
-    rewrite (fold_ifs f IHcd IHw (Some pe) (marks body) (pj + 1) pe Hwm ltac:(cbn [le_opt]; lia) ltac:(lia) (lvl_done_marks _ _ _ Hwp)
+    rewrite (fold_ifs f IHcd IHw (Some pe) (marks body) (pj + 1) pe Hwm Hxm ltac:(cbn [le_opt]; lia) ltac:(lia) (lvl_done_marks _ _ _ Hwp)
                       [exit_if pj c] [] ltac:(constructor; [repeat split; cbn [pos_of exit_if]; lia | constructor]) (Forall_nil _)).
     rewrite app_nil_r, Etr. reflexivity.
 Qed.
 
-Theorem condition_detect_nest f e l lo hi tail : wp lo hi l -> le_opt hi e -> tail_ok hi tail -> Forall (jump_in e) tail -> (depths l < f)%nat ->
+Theorem condition_detect_nest f e l lo hi tail : wp lo hi l -> exits_done l = true -> le_opt hi e -> tail_ok hi tail -> Forall (jump_in e) tail -> (depths l < f)%nat ->
   condition_detect f (flats l ++ tail) e = Ok (trees l ++ tail).
 Proof. exact (proj1 (cd_all f) e l lo hi tail). Qed.
 End WC.
@@ -1091,7 +1305,8 @@ Proof.
   { clear l lo hi Hwp Hd.
     induction 1 as [lo hi H | lo hi st r Hp Hlo Hr IH | lo hi p c a body r Hlo Hne Hb _ Hr IHr
                    | lo hi p c eb body jp je ebody r Hlo Hne Hne' Hb _ Hj He _ Hr IHr
-                   | lo hi done ps pj c pe body r Hlo Hpj Hc Hb _ Hr IHr]; intros Hd out prev.
+                   | lo hi done ps pj c pe body r Hlo Hpj Hc Hb _ Hx Hr IHr
+                 | lo hi conv xp xt r Hlo Hr IHr]; intros Hd out prev.
     - exists prev. rewrite app_nil_r. reflexivity.
     - cbn [trees tree_i fins fin_i fold_left]. rewrite depths_cons in Hd.
       assert (Es : ld_step (S f) (Ok (out, prev, [])) st = Ok (out ++ [st], Some st, []))
@@ -1116,7 +1331,10 @@ Proof.
         rewrite (is_repeat_with_no c (trees body) prev Hc). rewrite (is_repeat_with_in_list_no c (trees body) Hc). cbn [bind].
         rewrite (IHf body (pj + 1) pe Hb) by lia. reflexivity. }
       rewrite Es. destruct (IHr ltac:(lia) (out ++ [loop_stmt ps pe c (fins body)]) (Some (loop_stmt ps pe c (fins body)))) as [p' E'].
-      exists p'. rewrite E', <- app_assoc. reflexivity. }
+      exists p'. rewrite E', <- app_assoc. reflexivity.
+    - cbn [trees tree_i fins fin_i fold_left]. rewrite depths_cons in Hd.
+      change (ld_step (S f) (Ok (out, prev, [])) (Stmt xp (ExitRepeat xp))) with (Ok (out ++ [Stmt xp (ExitRepeat xp)], Some (Stmt xp (ExitRepeat xp)), @nil node)).
+      destruct (IHr ltac:(lia) (out ++ [Stmt xp (ExitRepeat xp)]) (Some (Stmt xp (ExitRepeat xp)))) as [p' E']. exists p'. rewrite E', <- app_assoc. reflexivity. }
   destruct (E l lo hi Hwp Hd [] None) as [p' E']. rewrite E'. reflexivity.
 Qed.
 
@@ -1129,7 +1347,8 @@ Lemma depth_le_count : forall l lo hi, wpw lo hi l -> (depths l <= stmts_count (
 Proof.
   induction 1 as [lo hi H | lo hi st r Hp Hlo Hr IH | lo hi p c a body r Hlo Hne Hb IHb Hr IHr
                  | lo hi p c eb body jp je ebody r Hlo Hne Hne' Hb IHb Hj He IHe Hr IHr
-                 | lo hi done ps pj c pe body r Hlo Hpj Hc Hb IHb Hr IHr].
+                 | lo hi done ps pj c pe body r Hlo Hpj Hc Hb IHb Hx Hr IHr
+                 | lo hi conv xp xt r Hlo Hr IHr].
   - split; reflexivity.
   - destruct IH as [I1 I2]. unfold stmts_count in *. cbn [flats flat_i trees tree_i app depths depth_i fold_right]. rewrite Nat.max_0_l. split; lia.
   - destruct IHb as [B1 B2]. destruct IHr as [R1 R2]. rewrite depths_cons, depth_if. cbn [flats trees]. rewrite flat_if, tree_if.
@@ -1140,12 +1359,14 @@ Proof.
     rewrite (count_split (flats body)), (count_split (flats ebody)). split; lia.
   - destruct IHb as [B1 B2]. destruct IHr as [R1 R2]. rewrite depths_cons, depth_while. cbn [flats trees]. rewrite flat_while, tree_while.
     unfold stmts_count, loop_stmt, exit_if in *. cbn [app fold_right stmt_count]. destruct done; cbn [fold_right stmt_count]; split; lia.
+  - destruct IHr as [R1 R2]. rewrite depths_cons. unfold stmts_count in *. cbn [flats flat_i trees tree_i app depth_i fold_right]. rewrite Nat.max_0_l.
+    destruct conv; cbn [stmt_count]; split; lia.
 Qed.
 
-Theorem detect_nest l lo hi : wpw lo hi l -> detect (flats l) = Ok (fins l).
+Theorem detect_nest l lo hi : wpw lo hi l -> exits_done l = true -> detect (flats l) = Ok (fins l).
 Proof.
-  intros Hwp. unfold detect. destruct (depth_le_count l lo hi Hwp) as [H1 H2].
-  pose proof (condition_detect_nest (S (S (stmts_count (flats l)))) None l lo hi [] Hwp I (Forall_nil _) (Forall_nil _) ltac:(lia)) as E.
+  intros Hwp Hxd. unfold detect. destruct (depth_le_count l lo hi Hwp) as [H1 H2].
+  pose proof (condition_detect_nest (S (S (stmts_count (flats l)))) None l lo hi [] Hwp Hxd I (Forall_nil _) (Forall_nil _) ltac:(lia)) as E.
   rewrite !app_nil_r in E. rewrite E. cbn [bind].
   apply (loop_detect_nest _ l lo hi Hwp). lia.
 Qed.
